@@ -39,6 +39,8 @@ pub struct TInfo {
     pub status: Status,
     pub held: Vec<LockId>,
     pub prio: u64,
+    /// the mutex of the condvar wait this thread last entered
+    pub cv_lock: Option<LockId>,
 }
 
 #[derive(Clone, Debug, PartialEq, Eq, PartialOrd, Ord)]
@@ -160,7 +162,7 @@ impl Sched {
     pub fn add_thread(&self, name: &str, class: &str) -> usize {
         let mut st = self.lock();
         let prio = st.rng.next_u64() | (1 << 40);
-        st.threads.push(TInfo { name: name.to_string(), class: class.to_string(), status: Status::Ready, held: vec![], prio });
+        st.threads.push(TInfo { name: name.to_string(), class: class.to_string(), status: Status::Ready, held: vec![], prio, cv_lock: None });
         st.threads.len() - 1
     }
 
@@ -486,6 +488,15 @@ impl Sched {
         let mut path = Vec::new();
         for _ in 0..st.threads.len() + 1 {
             let ti = &st.threads[t];
+            if let (Status::CvWait { .. }, Some(cl)) = (&ti.status, &ti.cv_lock) {
+                if st.owner.get(&cl.id) == Some(&t) {
+                    // the wait has been announced but its mutex not released yet (or it is being left): the thread is
+                    // running, and whoever wants that mutex gets it in a moment. (The announcement and the release are two
+                    // steps of the hooked Condvar; a snapshot taken between them while the OS had descheduled the thread
+                    // showed "request waits for the flag held by a waiter".)
+                    return None;
+                }
+            }
             match &ti.status {
                 Status::CvWait { notified: false, timed: Some(t), .. } if st.tick > *t => return None, // its bounded wait has expired: it is about to run
                 Status::CvWait { notified: false, timed, .. } => {
@@ -601,9 +612,10 @@ impl Observer for Sched {
         TID.with(|t| t.get()).is_some()
     }
 
-    fn cv_wait_begin(&self, cv: usize, _lock: LockId) {
+    fn cv_wait_begin(&self, cv: usize, lock: LockId) {
         if let Some(me) = TID.with(|t| t.get()) {
             let mut st = self.lock();
+            st.threads[me].cv_lock = Some(lock);
             st.threads[me].status = Status::CvWait { cv, notified: false, timed: None };
             Self::record_sync(&mut st, me, "wait(bitcoind_reachable)");
         }
